@@ -48,6 +48,8 @@ static Plan generate(uint64_t seed, uint64_t run, const std::map<std::string, st
     auto h = gen_history(r, r.chance(1, 3) ? 0 : (r.chance(1, 2) ? 2 : 6));
     for (auto& op : h) {
       if (op.kind == OP_ORIGIN) continue;
+      // one parse-with-base in three uses a base object that was obtained before the limit was lowered
+      if (op.kind == OP_PARSE && op.args.size() > 1 && op.args[1] && r.chance(1, 3)) op.sub |= 1;
       p.ops.emplace_back(0, op);
     }
   } else {
@@ -153,6 +155,10 @@ static bool check_history_under(const std::vector<Op>& ops, uint32_t L, Result& 
     size_t in_size = 0;
     for (auto& a : op.args)
       if (a) in_size = std::max(in_size, a->size());
+    if (op.kind == OP_PARSE && (op.sub & 1)) {  // base obtained under no limit: only the input string counts as input
+      in_size = op.args[0] ? op.args[0]->size() : 0;
+      base_norm = 0;
+    }
     bool fits_in = in_size <= L && base_norm <= L;
     bool fits_out = R.has_obj ? R.href_size <= L : true;
     if (!base_ok) fits_out = true;
